@@ -102,6 +102,22 @@ def variants(quick, rng):
     jobs.append({"what": "RNA strand without O2' of 2", "text": gen.pdb_text([rna]), "args": ["--ff=AMBER"]})
     jobs.append({"what": "protein and DNA", "args": ["--ff=AMBER"],
                  "text": gen.pdb_text([gen.peptide(["ALA", "LYS", "SER"]), gen.nucleic("GC", "D", origin=(30.0, 0, 0)), gen.water((15, 5, 5), resseq=301)])})
+    # three copies of one peptide under one chain identifier (a homo-oligomer written without distinct ids), and without any id / TER
+    tri = [a for n in range(3) for a in gen.transform(gen.peptide(["LYS", "ALA", "SER"], chain="A", start=1 + 3 * n), t=(0, 0, 30.0 * n))]
+    jobs.append({"what": "homo-trimer under one chain id", "text": gen.pdb_text([tri]), "args": ["--ff=AMBER"]})
+    tri0 = [dict(a, chain="") for a in tri]
+    jobs.append({"what": "homo-trimer without chain ids or TER", "text": gen.pdb_text([tri0], ter=False), "args": ["--ff=PARSE", "--nodebump", "--noopt"]})
+    # atoms under an alternative spelling AND in two alternate locations (the first one counts)
+    alias = []
+    for a in gen.peptide(["ALA", "ILE", "SER", "LEU"]):
+        if a["res_index"] == 1 and a["name"] == "CD1":
+            alias += [dict(a, name="CD", alt="A"), dict(a, name="CD", alt="B", xyz=a["xyz"] + 0.3)]
+        elif a["res_index"] == 2 and a["name"] == "OG":
+            alias += [dict(a, alt="A"), dict(a, alt="B", xyz=a["xyz"] + 0.25)]
+        else:
+            alias.append(a)
+    jobs.append({"what": "alias-named atom in two alternate locations", "text": gen.pdb_text([alias]), "args": ["--ff=PARSE"]})
+    jobs.append({"what": "alias-named atom in two alternate locations, clean", "text": gen.pdb_text([alias]), "args": ["--clean"]})
     # backbone gap inside one chain (no TER, numbering continues)
     full = gen.peptide(["ALA", "SER", "LYS", "GLY", "TRP", "ASP", "VAL", "LEU"])
     gap = [a for a in full if a["res_index"] not in (3, 4)]
